@@ -57,6 +57,7 @@ def run(P, rep, tier):
     rep.attempt(r5_guards, P, rep, ctx)
     rep.attempt(r6_move_copy, P, rep, ctx)
     rep.attempt(r7_snapshot_before_mutation, P, rep, ctx)
+    rep.attempt(r8_resolution_owner, P, rep, ctx)
     rep.floor("C01.R1", 7)
     rep.floor("C01.R2", 6)
     rep.floor("C01.R3", 4)
@@ -508,3 +509,37 @@ def r7_snapshot_before_mutation(P, rep, ctx):
               message="IH5Group.copy creates missing destination parents (require_group) before the source group is listed: parents created inside the source are copied along")
     passes = bool(cf.stores("kwargs['_src_children']")) and bool(hf.call_sites("kwargs.pop('_src_children', ___)"))
     rep.check(passes, "C01.R7", cp.qual, "the snapshot taken by copy is the one h5_copy_from_to uses", cp.loc(), construct="snapshot hand-over", message="the snapshot taken in IH5Group.copy is not handed to / used by h5_copy_from_to")
+
+
+# ------------------------------------------------------------------------------------------- R8
+# functions of overlay.py that look into the raw containers; confirmed by reading: resolution primitives, the value
+# pass-through of datasets, and the writers (which address the newest container only, see C02.R4)
+RAW_READERS = {
+    "_children": "the resolution rule itself", "_get_child_raw": "raw child at a resolved index", "_inspect_path": "debug helper",
+    "__bool__": "open test", "_files": "accessor", "_last_idx": "accessor",
+    "IH5Dataset.__getitem__": "value pass-through at the resolved index", "IH5Dataset.ndim": "value pass-through at the resolved index",
+    "IH5Dataset.__setitem__": "writer (newest container)", "IH5Dataset.copy_into_patch": "writer (newest container)",
+    "IH5Group.__delitem__": "writer", "IH5Group._create_virtual": "writer", "IH5Group.create_dataset": "writer", "IH5Group.create_group": "writer",
+    "IH5AttributeManager.__delitem__": "writer", "IH5AttributeManager.__setitem__": "writer",
+}
+
+
+def r8_resolution_owner(P, rep, ctx):
+    """Every *read* of the overlay view goes through the resolution primitives (segment-wise _node_seq / _children):
+    a function outside the table that looks into the raw containers answers from one container without applying
+    deletions / substitutions of ancestors made in newer containers."""
+    n = 0
+    for q, fi in sorted(P.functions.items()):
+        if fi.module.name != O or not isinstance(fi.node, (ast.FunctionDef, ast.AsyncFunctionDef)):
+            continue
+        acc = [x for x in walk_local(fi.node) if isinstance(x, ast.Attribute) and x.attr in ("_files", "__files__")]
+        if not acc:
+            continue
+        n += 1
+        tail = q[len(O) + 1:]
+        owner = tail.split(".<locals>.")[0]
+        ok = owner in RAW_READERS or owner.split(".")[-1] in RAW_READERS
+        rep.check(ok, "C01.R8", fi.qual, f"raw container access only in a resolution primitive / writer: {owner}", fi.loc(acc[0]), construct=f"raw container access in {owner}",
+                  message=f"{fi.qual} looks into the raw containers itself ({norm(acc[0])}...) instead of resolving through _node_seq/_children: deletions and substitutions of ancestors in newer containers are not applied (a node below a deleted or replaced group is still found)")
+    if n < 10:
+        raise AnalysisError(f"C01.R8: only {n} functions with raw container access found")
